@@ -1332,7 +1332,7 @@ def run_gadgets(ck, n_cases=None, proof=True):
             failing = failing + fail2
         res['proof_ok'], res['failing'] = ok, failing
         if ck.tier == 'thorough' and ok:
-            badm = ck.leanchecker(['MpVerif.C01.Props', 'MpVerif.C01.PropsCompose', 'MpVerif.C01.PropsCtxGen', 'MpVerif.C01.PropsObjective', 'MpVerif.C01.PropsGenTie'])
+            badm = ck.leanchecker(['MpVerif.C01.Props', 'MpVerif.C01.PropsCompose', 'MpVerif.C01.PropsCtxGen', 'MpVerif.C01.PropsObjective', 'MpVerif.C01.PropsGenTie', 'MpVerif.C01.PropsConvert'])
             if badm:
                 res['proof_ok'] = False
                 res['failing'] += ['leanchecker rejected %s' % x for x in badm]
